@@ -99,8 +99,16 @@ CHECKS["C15"] = dict(engine="PX", ref="4/C15", technique="explicit-state search 
                           "compared with a fresh cache; digests of all generated text are compared across hash seeds.",
                      note="Assumption: the hash seed reaches tensora only via iteration orders of small string sets.")
 
+CHECKS["C13"] = dict(engine="HX", ref="4/C13", technique="explicit-state breadth-first search over operation histories on live "
+                     "objects (state rebuilt by history replay, canonical-state hashing) with an LD_PRELOAD malloc/free "
+                     "interposer as the observer and a liveness reference model as the oracle",
+                     text="Every history up to the depth bound over {evaluate, alias, keep-struct, read, pickle, feed, del, "
+                          "gc} on three slots is executed on the real objects; after every step the interposer's view of "
+                          "every kernel-allocated array is compared with the model.",
+                     note="Trusted base: the interposer (native/shim.c), CPython reference counting semantics, glibc malloc.")
+
 NOT_APPLICABLE = {}
-PENDING = [ "C13", "C14", "C15"]
+PENDING = ["C14"]
 
 
 def main():
@@ -147,6 +155,8 @@ def main():
              "kind_free_text": "string / tree / sentence explorer for the parsers"},
             {"name": "PX", "path": "vx/checks/c15.py", "serves_properties": ["C15"],
              "kind_free_text": "cache-state search + hash-seed enumeration"},
+            {"name": "HX", "path": "vx/hx.py", "serves_properties": ["C13"],
+             "kind_free_text": "history explorer over live cffi objects with a malloc interposer"},
             {"name": "NX", "path": "vx/nx.py", "serves_properties": ["C06"],
              "kind_free_text": "native conformance harness: gcc/clang sanitizer builds + MCJIT vs abstract machine"},
             {"name": "DX", "path": "vx/checks/c09.py", "serves_properties": ["C09"],
